@@ -255,7 +255,13 @@ func Generate(property, tier string, seed uint64) *Trace {
 		if equal {
 			st = eqStake
 		}
-		gen.Validators = append(gen.Validators, GenVal{Acct: a, Stake: st})
+		gv := GenVal{Acct: a, Stake: st}
+		if len(gen.Validators) >= 1 && r.Chance(0.06) {
+			// exported state: a validator that was unstaking when the state was exported
+			gv.Unstaking = true
+			gv.UnstakeIn = int64(r.Range(1, 4000)) * int64(time.Second)
+		}
+		gen.Validators = append(gen.Validators, gv)
 	}
 	if len(gen.Validators) == 0 {
 		gen.KeyTypes[1] = "ed"
